@@ -76,45 +76,3 @@ func vmC06LoadAOF(s *Server) error {
 	return nil
 }
 
-//verif:cfg use=c06 quick.b_windows=4 thorough.b_windows=16 b_logs=whole_64-byte_commands b_common_prefix=any b_reconvergence=the_logs_may_agree_again_from_any_command_boundary_behind_the_differing_region ignorego=1
-func VH_C06_resume_position() {
-	const W = 512 * 1024
-	maxw := int64(4)
-	if vthorough() {
-		maxw = 16
-	}
-	F, L, P := vnondetInt64(), vnondetInt64(), vnondetInt64()
-	vassume(F >= 0 && F <= maxw*W && F%vhCmdLen == 0)
-	vassume(L >= 0 && L <= maxw*W && L%vhCmdLen == 0)
-	vassume(P >= 0 && P <= F && P <= L)
-	// the first differing byte is a value byte of a command (offset 51..61), or one log is a prefix of the other
-	off := P % vhCmdLen
-	vassume((off >= 51 && off < 62) || P == F || P == L)
-	// the logs may agree again behind the differing region (an equal-length divergence): from offset Q on
-	Q := vnondetInt64()
-	minFL := F
-	if L < minFL {
-		minFL = L
-	}
-	vassume(Q >= P && Q <= minFL && Q%vhCmdLen == 0)
-	vassume(Q > P || P == minFL)
-	vh06.F, vh06.L, vh06.P, vh06.Q = F, L, P, Q
-	vh06.fileLen, vh06.loaded = F, 0
-
-	s := vhFollower(F, L, P, Q)
-	pos, err := s.followCheckSome(vh06.addr, 0, "")
-	vobs("resume", F, L, P, Q, pos, err != nil)
-	if err != nil {
-		vreach("error-return")
-		vhFollowerDone(s)
-		return
-	}
-	// known finding: only some windows are compared ("check some"); when the head window agrees and the logs
-	// agree again behind a differing region, a probe behind that region is taken for the whole prefix
-	kfProbe := vknown("C06-unprobed-window-divergence") && P >= W && Q < minFL
-	vassertK("C06.K1.kept_bytes_equal_leaders", vhKeptIsLeaderPrefix(s, pos), kfProbe, "C06-unprobed-window-divergence")
-	vassert("C06.K1.file_cut_to_position", vhFollowerFileLen(s) == pos)
-	vassert("C06.K1.size_counter_is_position", int64(s.aofsz) == pos)
-	vassert("C06.K1.memory_is_replay_of_kept_bytes", vhMemoryIsReplayOf(s, pos))
-	vhFollowerDone(s)
-}
